@@ -38,7 +38,7 @@ type pathWalker struct {
 	assumeErrNil bool
 	stop         func(b *ssa.BasicBlock) bool
 	events       []string
-	why          string // reason when undecided
+	why          string          // reason when undecided
 	last         ssa.Instruction // the Return / Panic that ended the walk
 }
 
